@@ -17,7 +17,7 @@ import json
 import random
 import re
 
-from ..core import emit_behaviours, model_check, pool_map, run_tlc, sany, validate_traces
+from ..core import MachineryError, emit_behaviours, model_check, pool_map, run_tlc, sany, validate_traces
 from ..env import Conn, LoggerStub, ServerStub, boot
 
 META = {
@@ -412,17 +412,161 @@ def _seq_sig(bad):
     return sig
 
 
-def run(chk):
-    quick = chk.tier == 'quick'
-    chk.rule = 'to be written'
-    for m in ('Sequencer', 'Gen_Sequencer'):
+# ------------------------------------------------------------------ simulation world
+
+S16 = 16          # the specification counts sixteenths of a value unit
+
+
+def _a16(x):
+    """alpha for simulated values: exact multiples of 1/16 -> integer, anything else -> 9999"""
+    y = x * S16
+    return int(y) if float(y).is_integer() and abs(y) < 9000 else 9999
+
+
+class _Rnd:
+    """scripted random.random() for frappy.simulation (dyadic values incl. the extremes)"""
+
+    def __init__(self, seed):
+        self.rnd = random.Random(seed)
+
+    def random(self):
+        return self.rnd.choice([0.0, 0.125, 0.25, 0.5, 0.75, 0.875, 1 - 2.0 ** -10, 2.0 ** -10])
+
+    def __getattr__(self, name):
+        return getattr(random, name)
+
+
+def _run_sim(case, strategy=None):
+    """case: dict(shape, hv, target, ramp, jit (all in sixteenths), ops=[(act, arg)...]) -> trace of observations.
+    The client acts half a period away from the simulation thread; act 'tick' lets one period pass."""
+    from .. import detsched as ds
+    boot()
+    import frappy.modulebase as mb
+    import frappy.simulation as sim
+    s = ds.Scheduler(strategy or ds.GuidedStrategy([]), max_steps=100000)
+    shape, jit = case['shape'], case.get('jit', 0)
+    rate = {'ramp': 15.0, 'speed': 0.25}.get(shape)       # units per tick (1/16) -> parameter value
+    extra = [x for x in (shape if shape != 'none' else None, 'jitter' if jit or case.get('jitpar') else None, 'xp') if x]
+    cfg = {'description': '', 'extra_params': {'value': ','.join(extra)}, 'interval': {'value': TICK},
+           'value': {'default': case['hv'] / S16}, 'target': {'default': case['target'] / S16}}
+    if shape != 'none':
+        cfg[shape] = {'default': case['ramp'] * rate}
+    if 'jitter' in extra:
+        cfg['jitter'] = {'default': jit / S16}
+    tr = [{'ev': 'init', 'shape': shape, 'hv': case['hv'], 'target': case['target'],
+           'ramp': case['ramp'] if shape != 'none' else 0, 'jit': jit}]
+    info = {}
+
+    def client():
+        srv = ServerStub()
+        m = sim.SimDrivable('m', LoggerStub('m'), cfg, srv)
+        srv.secnode.add_module(m, 'm')
+        m.earlyInit()
+        m.initModule()
+        conn = Conn('c', srv.dispatcher)
+        req = lambda *a: srv.dispatcher.handle_request(conn, a)
+        st = lambda: 'busy' if m.status[0] == m.Status.BUSY else 'idle' if m.status[0] == m.Status.IDLE else str(m.status[0])
+        first = True
+        for act, arg in case['ops']:
+            if act == 'tick':
+                s.sleep(TICK / 2 if first else TICK)       # the first period: the thread starts at once
+                first = False
+                e = {'ev': 'tick', 'status': st(), 'val': _a16(m.value), 'hashv': not jit}
+                if not jit:
+                    e['hv'] = _a16(sim.SimReadable.read_value(m))
+                tr.append(e)
+            elif act == 'target':
+                req('change', 'm:target', arg / S16)
+                tr.append({'ev': 'target', 'T': arg, 'target': _a16(m.target), 'status': st()})
+            elif act == 'stop':
+                req('do', 'm:stop', None)
+                tr.append({'ev': 'stop', 'target': _a16(m.target), 'status': st()})
+            elif act == 'ramp':
+                req('change', 'm:' + shape, arg * rate)
+                tr.append({'ev': 'ramp', 'r': arg})
+            elif act == 'read':
+                rep = req('read', 'm:value', None)
+                tr.append({'ev': 'read', 'v': _a16(rep[2][0])})
+            elif act == 'setx':
+                req('change', 'm:xp', arg / S16)
+                tr.append({'ev': 'setx', 'v': arg})
+            elif act == 'readx':
+                rep = req('read', 'm:xp', None)
+                tr.append({'ev': 'readx', 'v': _a16(rep[2][0])})
+        info['done'] = True
+
+    with ds.Patch(sim, mb, extra={'frappy.simulation': {'random': _Rnd(case.get('seed', 0))}}):
+        s.spawn('client', client)
+        s.stop_when = lambda: info.get('done')
+        s.run()
+    exc = {n: repr(t.exc) for n, t in s.threads.items() if t.exc is not None}
+    return tr, exc, (s.deadlock or s.livelock) and not info.get('done')
+
+
+def _sim_case_from_behaviour(beh):
+    i = beh[0]['init']
+    return {'shape': i['shape'], 'hv': i['hv'], 'target': i['target'], 'ramp': i['ramp'], 'jit': 0,
+            'ops': [(st['act'], st['arg']) for st in beh]}
+
+
+def _sim_replay(beh):
+    case = _sim_case_from_behaviour(beh)
+    return (case,) + _run_sim(case)
+
+
+def _sim_random(args):
+    seed, = args
+    rnd = random.Random(seed)
+    shape = rnd.choice(['ramp', 'ramp', 'speed', 'none'])
+    grid = [0, 8, 16, 24, 40, 48, 72, 80, 84, 128]
+    ops = []
+    for _ in range(rnd.randint(4, 14)):
+        r = rnd.random()
+        if r < 0.3:
+            ops.append(('target', rnd.choice(grid)))
+        elif r < 0.38:
+            ops.append(('stop', 0))
+        elif r < 0.46 and shape != 'none':
+            ops.append(('ramp', rnd.choice([0, 8, 16, 24, 32, 64])))
+        elif r < 0.54:
+            ops.append(('read', 0))
+        elif r < 0.6:
+            ops.append(('setx', rnd.choice(grid)))
+        elif r < 0.66:
+            ops.append(('readx', 0))
+        else:
+            ops += [('tick', 0)] * rnd.randint(1, 4)
+    case = {'shape': shape, 'hv': rnd.choice(grid), 'ramp': rnd.choice([0, 8, 16, 24, 32]), 'seed': seed,
+            'jit': rnd.choice([0, 0, 8, 32]), 'jitpar': rnd.random() < 0.5, 'ops': ops}
+    case['target'] = rnd.choice([case['hv'], case['hv'], rnd.choice(grid)])
+    return (case,) + _run_sim(case)
+
+
+def _check_sequencer(chk, quick):
+    import time as _t
+    t0 = _t.time()
+    stage = {}
+    for m in ('Sequencer', 'Gen_Sequencer', 'Trace_Sequencer'):
         sany(m)
+    # 1 design
     chk.add_tlc(model_check('Sequencer', 'MC_Sequencer_quick.cfg' if quick else 'MC_Sequencer_thorough.cfg', timeout=900))
-    r, behs = emit_behaviours('Gen_Sequencer', 'Gen_Sequencer_quick.cfg' if quick else 'Gen_Sequencer_thorough.cfg',
-                              maximal_only=True, timeout=900)
-    chk.add_tlc(r)
+    r = run_tlc('Sequencer', 'MC_Sequencer_asimpl.cfg', timeout=300)
+    if not (r.violated and r.violated[1] == 'StopNoNewStep'):       # vacuity: the property must be able to fail
+        raise MachineryError('MC_Sequencer_asimpl.cfg (code as it stands, stop examined only after a call) is '
+                             'expected to violate StopNoNewStep: ' + str(r.violated or r.error))
+    stage['design'] = round(_t.time() - t0, 1)
+    # 2 spec -> code
+    behs = []
+    for cfg in (('Gen_Sequencer_quick_stop.cfg', 'Gen_Sequencer_quick_refused.cfg') if quick else
+                ('Gen_Sequencer_thorough_stop.cfg', 'Gen_Sequencer_thorough_refused.cfg', 'Gen_Sequencer_thorough_kinds.cfg')):
+        r, b = emit_behaviours('Gen_Sequencer', cfg, maximal_only=True, timeout=900)
+        chk.add_tlc(r)
+        behs += b
     alts = _alts(behs)
     jobs = list(zip(behs, alts))
+    if quick:
+        jobs = jobs[chk.seed % 2::2]
+        chk.notes['sequencer_behaviours_sampled'] = '1 of 2'
     res = pool_map(_replay_seq, jobs)
     for (beh, _), bad in zip(jobs, res):
         chk.impl_traces += 1
@@ -430,8 +574,86 @@ def run(chk):
         chk.case(json.dumps(acts, sort_keys=True), any(s['act'] == 'ret' for s in beh))
         if bad:
             chk.violation(_seq_sig(bad), {'world': 'seq', 'behaviour': beh, **bad})
+    if jobs:
+        chk.sample({'sequencer_behaviour': [{k: v for k, v in s.items() if k in ('act', 'seq', 'ev')}
+                                            for s in jobs[len(jobs) // 2][0]]})
+    stage['replay'] = round(_t.time() - t0, 1)
+    # 3 code -> spec: random client scripts under random schedules, small scripts under enumerated schedules
+    n = 400 if quick else 6000
+    runs = pool_map(_seq_random, [(chk.seed * 100003 + i,) for i in range(n)])
+    traces = [r[1] for r in runs]
+    origin = [{'world': 'seqtrace', 'scenario': r[0], 'choices': r[2]} for r in runs]
+    crashes = [(r[3], r[4]) for r in runs]
+    seen = set()
+    for idx, out in pool_map(_seq_explore, [(i, 150 if quick else 4000, 2 if quick else 3) for i in range(len(SEQ_SMALL))],
+                             chunksize=1):
+        for tr, flat, exc, stuck in out:
+            if (idx, tuple(flat)) in seen:
+                continue
+            seen.add((idx, tuple(flat)))
+            traces.append(tr)
+            origin.append({'world': 'seqtrace', 'scenario': SEQ_SMALL[idx], 'choices': flat, 'small': idx})
+            crashes.append((exc, stuck))
+    verdicts, st, trn, extra = validate_traces('Trace_Sequencer', traces, 'Trace_Sequencer.cfg', timeout=900,
+                                               collect=('DEVS',))
+    chk.states += st
+    chk.transitions += trn
+    devs = {}
+    for i, js in extra['DEVS']:
+        d = set(json.loads(js))
+        devs[i] = d if i not in devs else min(devs[i], d, key=len)
+    count = {}
+    for i, v in verdicts.items():
+        chk.impl_traces += 1
+        chk.case(('seqtrace', json.dumps(origin[i]['scenario'], sort_keys=True), tuple(origin[i]['choices'])),
+                 any(e['ev'] == 'wake' for e in traces[i]))
+        exc, stuck = crashes[i]
+        if exc or stuck:
+            chk.violation({'module': 'Sequencer', 'kind': 'exception' if exc else 'stuck',
+                           'exc': sorted(exc.values())[0][:60] if exc else ''},
+                          dict(origin[i], exceptions=exc, trace=traces[i]))
+        elif v is not None:
+            l = v[0]
+            ev = traces[i][l - 1] if 0 < l <= len(traces[i]) else {}
+            chk.violation({'module': 'Sequencer', 'trace_event': ev.get('ev'), 'th': ev.get('th'), 'code': ev.get('code', '')},
+                          dict(origin[i], failed_at=l, event=ev, trace=traces[i]))
+        else:
+            for dev in sorted(devs.get(i, ())):
+                count[dev] = count.get(dev, 0) + 1
+                chk.violation({'module': 'Sequencer', 'deviation': dev}, dict(origin[i], trace=traces[i]))
+    chk.notes['sequencer_deviations_needed'] = count
+    chk.notes['sequencer_explored_schedules'] = len(seen)
+    chk.sample({'sequencer_trace_prefix': traces[0][:8]})
+    stage['traces'] = round(_t.time() - t0, 1)
+    chk.notes['sequencer_wall_until_end_of_stage'] = stage
+
+
+def run(chk):
+    quick = chk.tier == 'quick'
+    chk.rule = ('sequencer: every behaviour of Gen_Sequencer (start / stop / refused start at every position of every '
+                'sequence over the step kinds, to the depth bound) replayed on the real mixin with state comparison '
+                'after each step; random client scripts (2-3 client threads) under random schedules and 4 small scripts '
+                'under all schedules with bounded preemptions, validated by Trace_Sequencer. A case is distinct by its '
+                'action sequence / (script, schedule); non-trivial = at least one step function returned / one wait ended')
+    _check_sequencer(chk, quick)
+    chk.exhaustive = False
 
 
 def replay(chk, rep):
-    print(json.dumps(rep['detail'], indent=1)[:3000])
+    d = rep['detail']
+    from .. import detsched as ds
+    if d.get('world') == 'seq':
+        bad = _replay_seq((d['behaviour'], [[] for _ in d['behaviour']]))
+        for st in d['behaviour'][:(bad or {}).get('step', len(d['behaviour'])) + 1]:
+            print({k: v for k, v in st.items() if k in ('act', 'seq', 'ev')})
+        print('->', json.dumps(bad, indent=1))
+    elif d.get('world') == 'seqtrace':
+        sc = d['scenario']
+        sc['threads'] = {n: [tuple(o) for o in ops] for n, ops in sc['threads'].items()}
+        tr, _, exc, stuck = _run_seq_scenario(sc, ds.GuidedStrategy(d['choices']))
+        for j, e in enumerate(tr, 1):
+            print(j, e)
+        print('exceptions', exc, 'stuck', stuck, 'failed_at', d.get('failed_at'))
+    else:
+        print(json.dumps(d, indent=1)[:3000])
     return 0
